@@ -4,7 +4,7 @@
    to /repo by the correspondence check on every run). *)
 From Coq Require Import List ZArith Lia Bool.
 From RecordUpdate Require Import RecordSet.
-From Sim Require Import Map Variant Current Kernel Queue Net Pcap SimState Sim RegistryProofs SockProofs QueueProofs.
+From Sim Require Import Map Variant Current Kernel Queue Net Pcap SimState Sim RegistryProofs SockProofs QueueProofs UdpProofs.
 Import ListNotations.
 Import RecordSetNotations.
 Local Open Scope Z_scope.
@@ -52,3 +52,57 @@ Theorem C08_repairs_in_place :
 Proof. split; reflexivity. Qed.
 Print Assumptions C08_repairs_in_place.
 
+
+(* ---- over whole histories: every interleaving of arriving datagrams and receive
+   calls with any buffer sizes (Proofs/UdpProofs.v) ---- *)
+Theorem C08_datagrams_come_out_in_arrival_order_at_most_once :
+  forall evs, let st := fold_left u_step evs u_init in
+  map fst (us_popped st) ++ uq_inq (us_q st) = us_accepted st /\ subseq (us_accepted st) (arrivals evs).
+Proof. exact datagrams_come_out_in_arrival_order_at_most_once. Qed.
+Print Assumptions C08_datagrams_come_out_in_arrival_order_at_most_once.
+
+Theorem C08_each_receive_returns_one_datagram_cut_to_the_buffers :
+  forall evs, let st := fold_left u_step evs u_init in
+  us_out st = map (fun pc => cut (fst pc) (snd pc)) (us_popped st).
+Proof. exact each_receive_returns_one_datagram_cut_to_the_buffers. Qed.
+Print Assumptions C08_each_receive_returns_one_datagram_cut_to_the_buffers.
+
+Theorem C08_account_equals_bytes_queued :
+  forall evs, let st := fold_left u_step evs u_init in uq_size (us_q st) = qbytes (uq_inq (us_q st)).
+Proof. exact account_equals_bytes_queued. Qed.
+Print Assumptions C08_account_equals_bytes_queued.
+
+Theorem C08_drained_reader_loses_nothing :
+  forall evs p, let st := fold_left u_step evs u_init in
+  uq_inq (us_q st) = [] -> pkt_size p <= UDP_LIMIT -> uq_inq (uq_arrive (us_q st) p) = [p].
+Proof. exact drained_reader_loses_nothing. Qed.
+Print Assumptions C08_drained_reader_loses_nothing.
+
+Theorem C08_history_example :
+  let st := fold_left u_step [UArrive (ex_dg 1 [1; 2; 3]); UArrive (ex_dg 2 [4]); URecv 2; UArrive (ex_dg 3 [5; 6]); URecv 10; URecv 1; URecv 5] u_init in
+  map fst (us_out st) = [[1; 2]; [4]; [5]] /\ uq_size (us_q st) = 0.
+Proof. exact u_example. Qed.
+Print Assumptions C08_history_example.
+
+(* uq_arrive / uq_recv are what the socket operations of the model compute *)
+Theorem C08_incoming_packet_is_uq_arrive :
+  forall cx s p w,
+  let u := get_udp w s in
+  let q' := uq_arrive (uq_of u) p in
+  udp_incoming cx s p w =
+    if UDP_LIMIT <? u_qsize u + pkt_size p then (w, [])
+    else udp_maybe_wakeup_reader cx s (set_udp w s (u <| u_qsize := uq_size q' |> <| u_inq := uq_inq q' |>)).
+Proof. exact udp_incoming_is_uq_arrive. Qed.
+Print Assumptions C08_incoming_packet_is_uq_arrive.
+
+Theorem C08_receive_from_is_uq_recv :
+  forall cx s bufs w,
+  let u := get_udp w s in
+  u_open u = true -> ep_eqb (u_bound u) ep_none = false -> d15_udp_release_whole (cv cx) = true ->
+  match uq_recv (uq_of u) (sumz bufs) with
+  | (None, _) => udp_receive_from cx s bufs w = (EC_WOULD_BLOCK, [], ep_none, w)
+  | (Some (data, from), q') =>
+      udp_receive_from cx s bufs w = (EC_OK, data, from, set_udp w s (u <| u_inq := uq_inq q' |> <| u_qsize := uq_size q' |>))
+  end.
+Proof. exact udp_receive_is_uq_recv. Qed.
+Print Assumptions C08_receive_from_is_uq_recv.
